@@ -16,6 +16,7 @@ import contextlib
 import hashlib
 import json
 import os
+import shutil
 import random
 import re
 import signal
@@ -135,12 +136,14 @@ def coq_check(prop_id: str) -> dict:
     thms = re.findall(r'^\s*(?:Theorem|Lemma|Corollary)\s+([A-Za-z0-9_\']+)', src, re.M)
     res['theorems'] = thms
     res['obligations'] = len(thms)
-    outdir = os.path.join(COQ, 'properties', '.out')
+    outdir = os.path.join(COQ, 'properties', '.out', 'p%d' % os.getpid())     # one per process: checks may run concurrently
     os.makedirs(outdir, exist_ok=True)
     cmd = 'timeout 900 coqc -Q coq/theories PBK -o %s/%s.vo coq/properties/%s.v' % (
         os.path.relpath(outdir, VERIF), prop_id, prop_id)
-    res['checker_cmd'] = './setup.sh (coq_makefile; make -j16: full .vo build) && ' + cmd
+    res['checker_cmd'] = ('./setup.sh (coq_makefile; make -j16: full .vo build) && mkdir -p coq/properties/.out && timeout 900 coqc '
+                          '-Q coq/theories PBK -o coq/properties/.out/%s.vo coq/properties/%s.v' % (prop_id, prop_id))
     rc, out = sh(cmd, timeout=1000)
+    shutil.rmtree(outdir, ignore_errors=True)
     res['log_tail'] = out[-1500:]
     # Print Assumptions blocks
     assumptions = {}
@@ -231,7 +234,7 @@ def vm_cross_check(prop_id, header, items, timeout=600):
     Returns (n_checked, failure_message_or_None)."""
     if not items:
         return 0, None
-    d = os.path.join(COQ, 'properties', '.out')
+    d = os.path.join(COQ, 'properties', '.out', 'x%d' % os.getpid())
     os.makedirs(d, exist_ok=True)
     path = os.path.join(d, 'cases_%s.v' % prop_id)
     with open(path, 'w') as f:
@@ -240,6 +243,7 @@ def vm_cross_check(prop_id, header, items, timeout=600):
             f.write('Example xc%d : (%s) = (%s). Proof. vm_compute. reflexivity. Qed.\n' % (i, term, expected))
     rc, out = sh('timeout %d coqc -Q coq/theories PBK -o %s/cases_%s.vo %s' % (
         timeout, os.path.relpath(d, VERIF), prop_id, os.path.relpath(path, VERIF)), timeout=timeout + 30)
+    shutil.rmtree(d, ignore_errors=True)
     if rc != 0:
         return 0, 'vm_compute cross-check failed: ' + out[-400:]
     return len(items), None
@@ -404,6 +408,8 @@ def write_evidence(ctx: Ctx, proof: dict, level='proof'):
     }
     os.makedirs(os.path.join(VERIF, 'evidence'), exist_ok=True)
     path = os.path.join(VERIF, 'evidence', ctx.prop_id + '.json')
-    with open(path, 'w') as f:
+    tmp = '%s.%d.tmp' % (path, os.getpid())          # written whole, then renamed: concurrent checks never leave half a file
+    with open(tmp, 'w') as f:
         json.dump(ev, f, indent=1, default=str)
+    os.replace(tmp, path)
     return path
